@@ -23,7 +23,7 @@ func init() {
 					"x allow{none,[10.0.0.0/8],[2001:db8::/32,10.1.0.0/16]}; addresses = for every prefix in the configuration its first-1, first, last, last+1 address, as IPv4, IPv6 and IPv4-mapped IPv6, plus a non-TCP address. " +
 					"Level 1: the real Loader.Get result (secret, handler, error) for every (configuration, address) against the reference admission model. Level 2 (full server over the scripted network, one configuration per scope-order class): " +
 					"a refused connection is closed with zero bytes written and zero handler invocations; a served one answers a command authorization obfuscated with the bound scope's key under that key, grants it for a user of that scope " +
-					"and answers FAIL for a user that exists only in another scope. Level 3 (engine E2): four overlapping-scope configurations are built and queried under the controlled scheduler, every schedule with <= 1 (quick) / 2 (thorough) deviations, so that any concurrency inside the loader's build cannot reorder scopes unnoticed. distinct_nontrivial = distinct (configuration, address) pairs where at least one filter or two scopes match",
+					"answers FAIL for a user that exists only in another scope, and a user name configured in every scope with a different bcrypt credential logs in (PAP) with the bound scope's credential and with no other scope's. Level 3 (engine E2): four overlapping-scope configurations are built and queried under the controlled scheduler, every schedule with <= 1 (quick) / 2 (thorough) deviations, so that any concurrency inside the loader's build cannot reorder scopes unnoticed. distinct_nontrivial = distinct (configuration, address) pairs where at least one filter or two scopes match",
 				Assumptions: []string{"containment is bitwise within an address family; IPv4-mapped IPv6 addresses are IPv4 (Go net semantics)", "a scope without users is skipped (the loader's documented rule)"}}
 		},
 		Workers:      constInt(16, 16),
@@ -76,6 +76,8 @@ func c13Config(cs c13Case) config.ServerConfig {
 			// a user that exists only in this scope, and a shared name with scope-specific rights
 			cfg.Users = append(cfg.Users, config.User{Name: "only-" + s.Name, Scopes: []string{s.Name},
 				Commands: []config.Command{{Name: "show", Action: config.PERMIT}}})
+			// the same user name with a different credential in every scope
+			cfg.Users = append(cfg.Users, config.User{Name: "dup", Scopes: []string{s.Name}, Authenticator: bcryptAuthn("pw-" + s.Name)})
 		}
 	}
 	var all []string
@@ -269,6 +271,41 @@ func c13Full(c *Ctx, rw *rworld, cs c13Case) {
 	}
 	if st, ok := ask("everywhere", 2); ok && st != 1 {
 		fail("shared-user-denied", fmt.Sprintf("a user assigned to every scope was answered status %#x", st))
+	}
+	// the same user name with different credentials in different scopes: only the bound scope's entry exists here
+	login := func(pw string, sid uint32) (status int, ok bool) {
+		m := ref.NewMsg()
+		m.N["action"], m.N["priv_lvl"], m.N["authen_type"], m.N["authen_service"] = 1, 1, 2, 1
+		m.S["user"], m.S["port"], m.S["rem_addr"], m.S["data"] = []byte("dup"), []byte("tty0"), []byte("203.0.113.9"), []byte(pw)
+		body, _ := ref.AuthenStart.Encode(m)
+		h := ref.Header{Version: 0xc1, Type: 1, Seq: 1, Session: sid}
+		closed, err := rw.W.Deliver(conn, ref.Packet(h, key, body))
+		if err != nil {
+			c.Abort("hang", err.Error(), cs)
+		}
+		pk, rest := srvx.ParseStream(conn.Take())
+		if closed || len(pk) != 1 || len(rest) != 0 {
+			fail("no-answer", fmt.Sprintf("login under the bound scope's key got closed=%v packets=%d", closed, len(pk)))
+			return 0, false
+		}
+		rm, cl := ref.AuthenReply.Decode(ref.Obfuscate(pk[0].H, key, pk[0].Body))
+		if cl != ref.Exact {
+			fail("wrong-key", "the login reply does not decode under the bound scope's key")
+			return 0, false
+		}
+		return rm.N["status"], true
+	}
+	if cs.Scopes[want].Users {
+		if st, ok := login("pw-"+cs.Scopes[want].Name, 4); ok && st != 1 {
+			fail("own-credential-refused", fmt.Sprintf("user dup presented the credential configured for it in the bound scope %s and was answered status %d", cs.Scopes[want].Name, st))
+		}
+	}
+	for i, s := range cs.Scopes {
+		if s.Name != cs.Scopes[want].Name && s.Users {
+			if st, ok := login("pw-"+s.Name, uint32(5+i)); ok && st == 1 {
+				fail("foreign-credential-accepted", fmt.Sprintf("user dup logged in on a connection bound to %s with the credential of its entry in scope %s", cs.Scopes[want].Name, s.Name))
+			}
+		}
 	}
 	for _, s := range cs.Scopes {
 		if s.Name != cs.Scopes[want].Name && s.Users {
